@@ -23,7 +23,7 @@ TIMEOUT = {"quick": 300, "thorough": 1200}
 
 
 def cases(tier, seed):
-    n = 48 if tier == "quick" else 240
+    n = 48 if tier == "quick" else 800
     cs = workload.reader_population(n, seed + 1500, max_levels=3)
     for i, c in enumerate(cs):
         c["sel_seed"] = seed * 31 + i
